@@ -192,10 +192,13 @@ func (server *SugarDB) getValues(ctx context.Context, keys []string) map[string]
 				}
 			} else if server.isInCluster() && server.raft.IsRaftLeader() {
 				// If we're in a raft cluster, and we're the leader, send command to delete the key in the cluster.
-				err := server.raftApplyDeleteKey(ctx, key)
-				if err != nil {
-					log.Printf("keyExists: %+v\n", err)
-				}
+				// The request is raised from a goroutine of its own: the state machine needs the store lock,
+				// which is held here, to apply it, so waiting for it at this point would block this node for good.
+				go func(ctx context.Context, key string) {
+					if err := server.raftApplyDeleteKey(ctx, key); err != nil {
+						log.Printf("keyExists: %+v\n", err)
+					}
+				}(ctx, key)
 			} else if server.isInCluster() && !server.raft.IsRaftLeader() {
 				// Forward message to leader to initiate key deletion.
 				// This is always called regardless of ForwardCommand config value
